@@ -324,6 +324,40 @@ def run(seed=0, rounds=400):
                 li = ev.loop_index('_i', n)
                 lc = ev.loop_concatenate(ev.InsertAxis(ev.Take(ev.constant(sizes), li), ev.constant(1)), li)
                 check('IR loop_concatenate of one-element chunks', run_ir(lc).tolist() == sizes.tolist(), sizes)
+    # ---- C20: the facts the token-string domain (pyvc/tokstr.py) and the Fraction model rely on
+    from fractions import Fraction
+    import string
+    rnd = random.Random(seed)
+    letters = string.ascii_letters + 'μΩθ_0123456789.,+-'
+
+    def name(first_not, last_not, excludes='*/'):
+        while True:
+            w = ''.join(rnd.choice(letters) for _ in range(rnd.randint(1, 4)))
+            if w[0] not in first_not and w[-1] not in last_not and not (set(w) & set(excludes)):
+                return w
+    for _ in range(rounds):
+        p, q = rnd.randint(-30, 30), rnd.randint(1, 12)
+        f, g = Fraction(p, q), Fraction(3 * p, 3 * q)
+        check('fraction-lowest-terms-is-a-function-of-the-value', f.denominator >= 1 and f.numerator == f * f.denominator and (f.numerator, f.denominator) == (g.numerator, g.denominator)
+              and (f.denominator == 1) == (f == int(f)), p, q)
+        n, d = rnd.randint(0, 10**rnd.randint(0, 6)), rnd.randint(0, 999)
+        check('int-of-str', int(str(n)) == n and str(n).isdigit(), n)
+        b = name('', '0123456789_')
+        u = name('+-0123456789.,', '0123456789_')
+        num = rnd.choice(['5', '2.5', '-.5', '+12', '1250.'])
+        check('rstrip-stops-at-a-name', (b + str(n)).rstrip('0123456789_') == b and (b + str(n) + '_' + str(d)).rstrip('0123456789_') == b and (num + u + str(n)).rstrip('0123456789_') == num + u, b, n, d)
+        check('lstrip-stops-at-a-name', (num + u).lstrip('+-0123456789.') == u and (rnd.choice(['.3', '10.2', ',.1', '']) + u).lstrip('0123456789.,') == u and ('*' + b).lstrip('*') == b, num, u)
+        parts = [name('', '') + rnd.choice(['', str(n), '_' + str(d)]) for _ in range(rnd.randint(1, 3))]
+        check('split-inverts-join', '*'.join(parts).split('*') == parts and '/'.join(parts).split('/') == parts and ''.split('*') == [''], parts)
+        check('partition', (str(n) + '_' + str(d)).partition('_') == (str(n), '_', str(d)) and str(n).partition('_') == (str(n), '', '') and ''.partition('_') == ('', '', ''), n, d)
+        s1 = num + u
+        tail = s1.lstrip('+-0123456789.')
+        check('prefix-by-length-difference', s1[:len(s1) - len(tail)] == num and (b + str(n))[len(b):] == str(n), s1)
+        items = [(name('', ''), Fraction(rnd.randint(-3, 3), rnd.randint(1, 3))) for _ in range(3)]
+        srt = sorted(items, key=lambda item: item[::-1], reverse=True)
+        check('sorted-descending-by-key', all(srt[i][::-1] >= srt[i + 1][::-1] for i in range(2)) and sorted(srt) == sorted(items), items)
+        da, db = {'m': rnd.randint(-2, 2), 's': rnd.randint(-2, 2)}, {'s': rnd.randint(-2, 2), 'm': rnd.randint(-2, 2)}
+        check('dict-equality-is-pointwise', (da == db) == (set(da) == set(db) and all(da[k] == db[k] for k in da)), da, db)
     print('AXIOMS ' + json.dumps(dict(rounds=rounds, failures=fails[:5])))
     ok_sets = run_sets(seed)
     ok_ev = evaluable_nodes(seed)
